@@ -7,6 +7,11 @@ BASELINE = ("cd /repo && (cargo nextest run --workspace --no-fail-fast --tool-co
 
 # id -> (level, technique, level text, note, design ref)
 CHECKS = {
+ "C04": ("exploration",
+         "metamorphic + reference-model property-based testing: each generated mapping is run under all three policies and compared with the harness' de-duplicated renderings and ground-truth key positions; exhaustive small mappings + proptest",
+         "All mappings with <= 4 entries over 2 key identities x 3 key kinds (scalar, sequence, mapping) x 3 value shapes (up to 3-level containers) at 3 nesting positions in block and flow layout, plus random mappings with quoted/tagged/aliased keys and aliased values. Error policy: DuplicateMappingKey at the renderer's ground-truth position of the second occurrence; FirstWins == document with later entries deleted; LastWins delivers every entry in order / overwriting map == earlier entries deleted; no repeats => all policies agree. Exploration: no counterexample in the enumerated and sampled space.",
+         "trusts the harness' same_key rule (structure, scalar text, tag; style ignored - the property's wording), renderer positions (self-checked against the raw parser events) and de-duplication; locations are not judged for aliased keys / replayed content",
+         "DESIGN.md section 3 C04"),
  "C03": ("exploration",
          "metamorphic + reference-model property-based testing: value(doc with merges) == value(harness-merged document) and == the harness' expected ordered value; exhaustive small shapes + proptest nested merges",
          "All merge shapes with <= 2 own keys, <= 2 merge entries at every interleaving, <= 2 sources per entry (inline, alias, sequence) over 3 key names, under all three duplicate-key policies; random merges nested to depth 3 with null values, nested sequences and aliases; invalid merge values must be rejected; quoted/tagged << must stay an ordinary key. Delivery order is observed through an order-preserving target. Exploration: no counterexample in the enumerated and sampled space.",
